@@ -2,10 +2,13 @@
 """prints the prompt for a mutation-seeding sub-agent: tools/seed_prompt.py C04 (creates the worktree too)"""
 import json, subprocess, sys, os
 pid = sys.argv[1]
-wt = f"/tmp/seed_{pid}"
+rnd = int(sys.argv[2]) if len(sys.argv) > 2 else 1
+tag = pid if rnd == 1 else f"{pid}_r{rnd}"
+wt = f"/tmp/seed_{pid}" if rnd == 1 else f"/tmp/seed{rnd}_{pid}"
 if not os.path.exists(wt):
     subprocess.run(["git", "-C", "/repo", "worktree", "add", "--detach", wt, "HEAD"], check=True, capture_output=True)
 p = [json.loads(l) for l in open("/verif/properties.jsonl") if json.loads(l)["id"] == pid][0]
+extra = "" if rnd == 1 else " Avoid the most obvious one-token slip in the main function of the most relevant file: look instead at base classes, helper/utility functions and static helpers shared by these code paths, rarely used constructor options and their defaults (falsy values such as 0, None handling), state that is cached or carried across calls or across instances, the order of two operations, boundary values (empty, one element, exactly equal), and the interplay of two files."
 print(f"""You are helping to evaluate a verification effort by playing the role of a developer who introduces a subtle regression.
 
 Workspace: a scratch git worktree of the Python library BenediktAlkin/KappaData (PyTorch dataset utilities, package `kappadata`) at {wt}. Work ONLY inside {wt}. Never modify or read anything under /repo or /verif. Run Python as `/venv/bin/python` with your current directory set to {wt} (so that the worktree's copy of `kappadata` is the one imported; verify once with `cd {wt} && /venv/bin/python -c "import kappadata; print(kappadata.__file__)"` - it must print a path under {wt}; if it does not, prefix commands with `PYTHONPATH={wt}`). There is no network.
@@ -21,9 +24,9 @@ Task: produce up to THREE different, independent changes to the library source (
   (a) breaks the property above for some inputs,
   (b) still imports fine and still passes the existing test suite: `cd {wt} && OMP_NUM_THREADS=2 /venv/bin/python -m pytest -q -p no:cacheprovider --timeout=900 tests_unit tests_integration test_unit_long` (keep OMP_NUM_THREADS=2: the machine is shared) must not have any test fail that passes without your change (some tests already fail on the unchanged tree - those do not matter; compare against a run on the unchanged tree; do NOT use `git stash` - the stash is shared with other worktrees of this repository - save your change with `git diff > /tmp/<yourfile>.diff`, restore with `git checkout -- kappadata` and re-apply with `git apply`),
   (c) is realistic - looks like a plausible refactoring slip, off-by-one, wrong variable, lost forwarding, wrong default, stale state, ordering mistake - not sabotage such as `if x == 1234`,
-  (d) needs something SPECIFIC to manifest: a particular multi-step sequence of operations, an unusual but legal input or configuration, a boundary value, a particular combination of two options, or two cooperating code sites that each look fine alone. Changes that ordinary use would expose at once are not wanted. Prefer changes that differ in kind from one another (different code site, different aspect of the property).
+  (d) needs something SPECIFIC to manifest: a particular multi-step sequence of operations, an unusual but legal input or configuration, a boundary value, a particular combination of two options, or two cooperating code sites that each look fine alone. Changes that ordinary use would expose at once are not wanted. Prefer changes that differ in kind from one another (different code site, different aspect of the property).{extra}
 
-For each change i (1..3) create the directory {wt}/_out/{pid}_i/ containing
+For each change i (1..3) create the directory {wt}/_out/{tag}_i/ containing
   - patch.diff : `git diff` of exactly that change against the unchanged worktree HEAD (applies with `git apply` at the repository root),
   - demo.py    : a small self-contained program that exits with status 0 on the unchanged library and with a non-zero status (assert failure) when the change is applied, demonstrating the broken property through the public API only; it is run as `cd <repo root> && /venv/bin/python <path>/demo.py`,
   - meta.json  : {{"property": "{pid}", "summary": "...what was changed...", "needs": "...what is needed for the breakage to manifest...", "ran": ["...commands you ran to confirm (a),(b)..."]}}.
